@@ -3,3 +3,4 @@ pub mod c02;
 pub mod c03;
 pub mod c10;
 pub mod c15;
+pub mod tworld;
